@@ -9,8 +9,11 @@ from progs import Item, Field, Variant, Program, t_prim
 NAMES = ['Foo', 'Bar', 'Baz', 'Item', 'UserId', 'Config', 'Point', 'Node', 'Color', 'Shape', 'Event', 'Payload', 'Account', 'Vault',
          'IdCard', 'ApiKey', 'Session', 'Token', 'HttpUrl', 'Wrapper']
 FIELDS = ['a', 'b', 'c', 'd', 'e', 'first', 'second', 'items', 'value', 'next', 'left', 'right', 'owner', 'kind2', 'data']
-VARIANTS = ['A', 'B', 'C', 'Ready', 'Failed', 'Leaf', 'Branch', 'Http2', 'IdOnly']
+VARIANTS = ['A', 'B', 'C', 'Ready', 'Failed', 'Leaf', 'Branch', 'Http2', 'IdOnly', 'XyZwQr']
 RENAME_STYLES = [lambda n: n + 'Renamed', lambda n: 'New' + n, lambda n: n + '2', lambda n: 'R' + n.lower(), lambda n: n[:1] + 'x' + n[1:]]
+# names that begin with a configured Kotlin/Swift prefix (OP, X_) or with a proper prefix of it (O, X): a printer that
+# treats "already prefixed" names specially at one site but not at another is only visible on such names
+PREFIX_HEADS = [('OP', 'OP'), ('OP', 'OP'), ('O', 'OP'), ('X_', 'X_'), ('X_', 'X_'), ('X', 'X_')]
 KINDS = ['struct', 'struct', 'gstruct', 'unit_enum', 'alg_enum', 'alg_enum', 'galg_enum', 'alias', 'alias', 'galias', 'inline_alias', 'ginline_alias']
 
 
@@ -76,12 +79,19 @@ class Gen:
             out.append(f)
         return out
 
-    def program(self, rename_mode=None, with_const=False, n=None):
-        """rename_mode: None (random subset) | 'none' | 'all' | a set of indices"""
+    def program(self, rename_mode=None, with_const=False, n=None, prefix_names=False):
+        """rename_mode: None (random subset) | 'none' | 'all' | a set of indices;
+        prefix_names: most item names (every kind) begin with a prefix setting or a proper prefix of one;
+        prog.c09_prefix is then the setting the names were built for"""
         r = self.r
         prog = Program(r.getrandbits(32))
         n = n or r.randint(2, 8)
         names = r.sample(NAMES, n)
+        prog.c09_prefix = None
+        if prefix_names:
+            head, prog.c09_prefix = r.choice(PREFIX_HEADS)
+            pick = {k for k in range(n) if r.random() < 0.7} or {r.randrange(n)}
+            names = [head + nm if k in pick else nm for k, nm in enumerate(names)]
         items = []
         kinds = [r.choice(KINDS) for _ in range(n)]
         # make sure that the interesting kinds occur often
